@@ -1,10 +1,10 @@
 package block
 
-// thorough: two notifications, three idle intervals, longer horizon (arbitrary durations for 3
-// productions was tried as well: does not finish in 90 min)
+// thorough: two notifications instead of one (wider settings -- a third idle interval, a longer
+// horizon, arbitrary durations for 3 productions -- were tried: they do not finish in 75 min)
 var (
 	zzC17SymbolicProductions = 2
 	zzC17Notifications       = 2
-	zzC17Intervals           = 3
-	zzC17Horizon             = int64(75)
+	zzC17Intervals           = 2
+	zzC17Horizon             = int64(60)
 )
